@@ -1,7 +1,7 @@
 #!/usr/bin/env python3
 """Imports confirmed sub-agent changes into /verif/seeded/<id>/ and records which checks report each one.
 For every seed: scratch copy of /repo (never /repo itself) + patch → every property's quick check with -repo <copy>.
-Usage: seed_matrix.py [--import /tmp/wt/out]   (without --import only the matrix is recomputed from /verif/seeded)"""
+Usage: seed_matrix.py [--import /tmp/wt/out] [--only-new]   (without --import only the matrix is recomputed from /verif/seeded)"""
 import json, os, re, shutil, subprocess, sys, glob, tempfile
 from concurrent.futures import ThreadPoolExecutor
 
@@ -67,8 +67,18 @@ def main():
         import_from(sys.argv[sys.argv.index("--import") + 1])
     seeds = sorted(d for d in glob.glob(os.path.join(SEEDED, "C*")) if os.path.isdir(d))
     rows = []
+    only_new = "--only-new" in sys.argv  # keep the recorded matrix rows of seeds that already have one
+    def job(sd):
+        if only_new:
+            try:
+                m = json.load(open(os.path.join(sd, "meta.json")))
+                if "detected_by" in m:
+                    return os.path.basename(sd), m["detected_by"], m.get("detection_error")
+            except Exception:
+                pass
+        return run_seed(sd)
     with ThreadPoolExecutor(max_workers=8) as ex:
-        for sid, caught, err in ex.map(run_seed, seeds):
+        for sid, caught, err in ex.map(job, seeds):
             mp = os.path.join(SEEDED, sid, "meta.json")
             m = json.load(open(mp))
             m["detected_by"] = caught if caught is not None else {}
